@@ -22,6 +22,6 @@ NOTES = [
 ]
 META = dict(
     technique="Lean 4 proof (kernel evaluation over regenerated tables; bit/arithmetic lemmas with omega; induction over the palette for a metric-generic scan) + differential correspondence and exhaustive oracle sweeps of FindColor",
-    text="Tcell.Props.C16 proves over the regenerated ColorValues/ColorNames: the 256 palette entries equal the xterm formula, all 148 W3C/CSS colour names are known and have their CSS value (names_css, full strength since fix 4dcedc1 added cyan/magenta), every name tcell lists is a CSS name, NewRGBColor/RGB, NewHexColor/Hex, TrueColor idempotence and value, GetColor(CSS(c)) = TrueColor(c), FromImageColor, invalid/special → -1 for all colour values, and for every metric that is a strict weak order, every colour and palette: FindColor returns a member, ColorDefault only for the empty palette, no member strictly closer, first minimum on ties. The model is compared with color.go/colorfit.go on tables, boundary and random inputs (FindColor on the exact float64 distances go-colorful produced); the oracle checks membership/argmin on 2^16 sampled (quick) or all 2^24 (thorough) colours × the 8/16/88/256-entry palettes and random palettes. Directed FindColor sweeps (dsweep: 1/4, 1/2, 3/4 points between every pair of members of the 8/16/88/256 palettes, the +-1 neighbourhood of every member, all greys; random palettes with members a step apart) sit on the decision boundaries between close members; not-valid colours with every combination of the RGB/special flag bits must stay not-valid (-1) through TrueColor and CSS.",
+    text="Tcell.Props.C16 proves over the regenerated ColorValues/ColorNames: the 256 palette entries equal the xterm formula, all 148 W3C/CSS colour names are known and have their CSS value (names_css, full strength since fix 4dcedc1 added cyan/magenta), every name tcell lists is a CSS name, NewRGBColor/RGB, NewHexColor/Hex, TrueColor idempotence and value, GetColor(CSS(c)) = TrueColor(c), FromImageColor, invalid/special → -1 for all colour values, and for every metric that is a strict weak order, every colour and palette: FindColor returns a member, ColorDefault only for the empty palette, no member strictly closer, first minimum on ties. The model is compared with color.go/colorfit.go on tables, boundary and random inputs (FindColor on the exact float64 distances go-colorful produced); the oracle checks membership/argmin on 2^16 sampled (quick) or all 2^24 (thorough) colours × the 8/16/88/256-entry palettes and random palettes. Directed FindColor sweeps (dsweep: 1/4, 1/2, 3/4 points between every pair of members of the 8/16/88/256 palettes, the +-1 neighbourhood of every member, all greys; random palettes with members a step apart) sit on the decision boundaries between close members; not-valid colours with every combination of the RGB/special flag bits must stay not-valid (-1) through TrueColor and CSS. The tables are also compared with a snapshot while a terminfo screen of each colour count (8/16/88/256/direct) is alive and after its Fini (op within, class table-changed-by-screen): what the tables say is no function of any screen.",
     note="Trusted: Lean kernel, sampled model↔code correspondence, go-colorful's CIE76 as the metric (validated against an independent Lab within 0.05 ΔE), hand-written xterm/CSS references. Former finding (fixed by 4dcedc1): the W3C names cyan and magenta were missing from ColorNames.",
 )
